@@ -44,6 +44,18 @@ def make_message(ev, n):
     if ev == "cer_odd":
         return C.cer(PEER_HOST, PEER_REALM, hbh=hb, e2e=ee,
                      extra=[(C.HOST_IP_ADDRESS, C.AF_M, None, C.ip_data("10.0.0.9"))])
+    dup_ip = [(C.HOST_IP_ADDRESS, C.AF_M, None, C.ip_data("10.0.0.9"))]
+    if ev == "cer_bad_host_dup":
+        # wrong Origin-Host, but the number of recognised AVPs is right again
+        return C.cer(bad_host, PEER_REALM, hbh=hb, e2e=ee, extra=dup_ip)
+    if ev == "cer_no_host_dup":
+        m = C.cer(PEER_HOST, PEER_REALM, hbh=hb, e2e=ee, extra=[(C.PRODUCT_NAME, 0, None, b"again")])
+        m["avps"] = [a for a in m["avps"] if a[0] != C.ORIGIN_HOST]
+        return m
+    if ev == "cea_bad_host_dup":
+        return C.cea(bad_host, PEER_REALM, hbh=hb, e2e=ee, extra=dup_ip)
+    if ev == "cea_bad_realm_dup":
+        return C.cea(PEER_HOST, bad_realm, hbh=hb, e2e=ee, extra=[(C.VENDOR_ID, C.AF_M, None, C.u32(0))])
     if ev == "cea_valid":
         return C.cea(PEER_HOST, PEER_REALM, hbh=hb, e2e=ee)
     if ev == "cea_bad_host":
@@ -108,10 +120,15 @@ class C06(Check):
         nev = rng.randint(2, 8 if tier == "quick" else 12)
         # bias: open the connection first in most runs
         events = []
-        if rng.random() < 0.75:
+        x = rng.random()
+        if x < 0.65:
             events.append("cea_valid" if mode == "CLIENT" else "cer_valid")
+        elif x < 0.80:
+            events.append(rng.choice(["cea_bad_host", "cea_bad_realm", "cea_bad_host_dup", "cea_bad_realm_dup"]) if mode == "CLIENT"
+                          else rng.choice(["cer_bad_host", "cer_bad_realm", "cer_bad_host_dup", "cer_no_host_dup"]))
         weights = {"dwr_valid": 4, "app_req": 4, "app_ans": 3, "local_stop": 3, "dpa_valid": 3, "dpr_valid": 3,
-                   "peer_disc": 2, "idle": 2, "cer_valid": 2, "cea_valid": 2, "app_req_misaddressed": 3}
+                   "peer_disc": 2, "idle": 2, "cer_valid": 2, "cea_valid": 2, "app_req_misaddressed": 3,
+                   "cer_bad_host_dup": 2, "cea_bad_host_dup": 2}
         names = M.EVENTS
         w = [weights.get(n, 1) for n in names]
         while len(events) < nev:
@@ -441,7 +458,7 @@ class C06(Check):
         states = sorted(set("%s:%s" % (role, t[2]) for t in trace))
         return base_result(sim, uniq, summary={"applied": st["applied"], "skipped": st["skipped"], "conns": st["conns"],
                                                "trace": trace[:14]},
-                           extra={"applied": st["applied"], "sched_sig": hs, "abstract_states": states,
+                           extra={"applied": st["applied"], "sched_sig": hs, "abstract_states": states + sorted(w.abstract_states),
                                   "faults": dict([("event:" + t[0], 1) for t in trace][:0],
                                                  **_count_events(trace),
                                                  preemption_in_bromelia_code=sim.preempt_line + sim.preempt_opcode)})
